@@ -29,9 +29,40 @@ for n, (s, kind, v) in enumerate(outs):
         cn = T.cname.get(k.as_long()) if z3.is_int_value(k) else str(k)
     print(n, kind, cn, 'taint' if s.taint else '', vs[:150], 'nconds', len(s.conds))
 print('notes', sorted(set(en.notes)))
-if len(sys.argv) > 2:
+if len(sys.argv) > 2 and sys.argv[2] not in ('obl','oblm'):
     n = int(sys.argv[2]); s, kind, v = outs[n]
     for c_ in s.conds: print('  COND', c_.sexpr()[:600])
     v, s = en.term(v, s, escape=False) if kind == 'return' else (v, s)
     for (label, g) in c.post(A, st, Out(kind, v, s)):
         print('  GOAL', label, z3.simplify(g).sexpr()[:1500])
+if len(sys.argv) > 3 and sys.argv[2] == 'obl':
+    from pyvc import solve
+    for (label, hyps, goal, taint) in en.obligations:
+        if re.search(sys.argv[3], label):
+            r = solve.check(hyps, goal)
+            print('OBL', label, r['result'])
+            if r['result'] != 'unsat':
+                for h in hyps: print('   H', z3.simplify(h).sexpr()[:500])
+                print('   G', z3.simplify(goal).sexpr()[:1500])
+                if r['model'] is not None:
+                    m = r['model']
+                    for d in m.decls():
+                        if d.arity() == 0: print('   M', d.name(), m[d])
+                break
+if len(sys.argv) > 3 and sys.argv[2] == 'oblm':
+    from pyvc import solve
+    for (label, hyps, goal, taint) in en.obligations:
+        if re.search(sys.argv[3], label):
+            r = solve.check(hyps, goal)
+            print('OBL', label, r['result'])
+            if r['result'] == 'sat':
+                m = r['model']
+                print('   G', z3.simplify(goal).sexpr()[:1200])
+                for h in hyps[-12:]: print('   H', z3.simplify(h).sexpr()[:300].replace('\n',' '))
+                def walk(e, seen):
+                    if e.get_id() in seen: return
+                    seen.add(e.get_id())
+                    for ch in e.children(): walk(ch, seen)
+                    if z3.is_app(e) and e.num_args() > 0 and e.decl().name() in ('Field_tag','FieldsOkUpTo','lookup','nth','Sem_ok','Field_val','select','FieldsValUpTo','length','KnownKeysUpTo'):
+                        print('   EV', e.sexpr()[:160].replace('\n',' '), '=>', str(m.eval(e, model_completion=True))[:120])
+                walk(z3.simplify(goal), set())
